@@ -125,6 +125,7 @@ def view(a):
     return dict(shape=list(a.shape), dtype=dtype_info(a.dtype), len=len(a), size=int(a.size),
                 nbytes=int(a.nbytes), ndim=a.ndim, itemsize=a.itemsize,
                 data=np.ascontiguousarray(d).tobytes().hex(), dshape=list(d.shape),
+                canon=np.ascontiguousarray(d.astype(d.dtype.newbyteorder('>'))).tobytes().hex(),
                 ddtype=dtype_info(d.dtype), mode=a.accessmode)
 
 
@@ -224,11 +225,37 @@ def run_history(case, d, want_regen=True):
             extra['images'] = [{kk: v for kk, v in im.items() if kk != '_img'} for im in imgs]
             extra['allgood'] = allgood
 
+            fs = op.get('fsize')       # {'chunk': i, 'k': bytes of chunk i that fit}
+            if fs is not None:
+                # kernel-enforced write failure: the data file may grow by k more
+                # bytes once chunk i is reached (RLIMIT_FSIZE, SIGXFSZ ignored)
+                extra['fsize'] = fs
+                im = imgs[fs['chunk']]
+                if 'tail' in im:
+                    im['fail_k'] = fs['k']
+                # reference: chunks before the failing one
+                newref = ref
+                for im2 in imgs[:fs['chunk']]:
+                    if 'tail' in im2 and im2['tail'] == list(ref.shape[1:]):
+                        newref = np.concatenate([newref, im2['_img']]).astype(ref.dtype) if im2['n'] else newref
+                    else:
+                        break
+                extra['images'] = [{kk: v for kk, v in im3.items() if kk != '_img'} for im3 in imgs]
+                extra['allgood'] = False
+
             def gen():
-                for s in specs:
+                for i, s in enumerate(specs):
                     if s['kind'] == 'raise':
                         raise Boom('iterable fails')
-                    yield build_value(s)
+                    v = build_value(s)
+                    if fs is not None and i == fs['chunk']:
+                        signal.signal(signal.SIGXFSZ, signal.SIG_IGN)
+                        cur = os.path.getsize(os.path.join(path, 'arrayvalues.bin'))
+                        if len(a) == 0 and i == 0:
+                            cur = 0      # the first chunk of an empty array rewrites the file
+                        soft, hard = resource.getrlimit(resource.RLIMIT_FSIZE)
+                        resource.setrlimit(resource.RLIMIT_FSIZE, (cur + fs['k'], hard))
+                    yield v
             if k == 'append':
                 val = build_value(specs[0])
                 res = call(lambda: a.append(val))
@@ -236,7 +263,12 @@ def run_history(case, d, want_regen=True):
                 vals = [build_value(s) for s in specs]
                 res = call(lambda: a.iterappend(vals))
             else:
-                res = call(lambda: a.iterappend(gen()))
+                try:
+                    res = call(lambda: a.iterappend(gen()))
+                finally:
+                    if fs is not None:
+                        soft, hard = resource.getrlimit(resource.RLIMIT_FSIZE)
+                        resource.setrlimit(resource.RLIMIT_FSIZE, (hard, hard))
             # property C03/C09: mode r -> nothing changes
             if a.accessmode == 'r+' or res[0] == 'ok':
                 ref = newref
